@@ -252,6 +252,11 @@ func (e *SpecEnv) unary(n *EUnary) SV {
 		if v.Low != nil {
 			return SV{T: v.Low.val, Ty: v.Low.elem}
 		}
+		if tp, ok := v.Ty.(*types.TypeParam); ok {
+			if el := typeParamPointerElem(tp); el != nil {
+				return SV{Addr: e.val(v), Ty: el}
+			}
+		}
 		pt, ok := v.Ty.Underlying().(*types.Pointer)
 		if !ok {
 			sfail("deref of non-pointer")
@@ -693,6 +698,15 @@ func (e *SpecEnv) call(n *ECall) SV {
 					sfail("arrSlice: not an array")
 				}
 				return SV{T: e.h.arrSlice(xt), Ty: types.NewSlice(at.Elem())}
+			case "gint":
+				// gint("name", ptr): integer ghost field of an object (lives in the heap, see modifies gint("name"))
+				nm, ok := n.Args[0].(*EStr)
+				if !ok || len(n.Args) != 2 {
+					sfail("gint(\"name\", ptr)")
+				}
+				p := e.val(e.tr(n.Args[1]))
+				arr := e.h.arr(e.st, "G_"+sanitize(nm.Val), SArray(SPtr, SInt))
+				return SV{T: Select(arr, p), Ty: tInt}
 			case "apply":
 				// apply(f, lowered args...): application of a function value on already lowered arguments
 				f := e.tr(n.Args[0])
